@@ -681,6 +681,40 @@ def check_r124(fx, rep):
     rep.floor("R12.4", n_sites, 6, "word-type constructions with a width argument outside the type-expression constructors")
 
 
+def check_reported_width(fx, rep, rule="R12.4"):
+    """The width reported for a type is never larger than the width inferred for it: where the type checker turns a bit width
+    into the `length` / `size` of an ABI type, the only arithmetic on the way rounds down (`/ BYTE_SIZE_BITS`). Rounding up
+    (`div_ceil`, `next_multiple_of`), adding or scaling makes an entry at the top of a slot end beyond bit 256."""
+    ABI = "tc::abi::AbiType"
+    GROW = {"div_ceil", "next_multiple_of", "checked_next_multiple_of", "next_power_of_two", "max", "pow", "checked_add", "saturating_add", "wrapping_add", "checked_mul", "saturating_mul", "wrapping_mul", "checked_shl", "wrapping_shl", "abs_diff", "clamp"}
+    GROW_OPS = {"Add", "Mul", "Shl", "BitOr"}
+    n = 0
+    for b in fx.fn_bodies():
+        if not b.get("hir") or b.get("from_expansion") or not b["def"].startswith(("tc::", "<tc::")):
+            continue
+        for node, ps in F.walk(b["hir"]["value"]):
+            if node.get("k") != "Struct" or node.get("adt") != ABI:
+                continue
+            for f in node["fields"]:
+                if f["field"] not in ("length", "size"):
+                    continue
+                ty = (f["e"].get("ty") or "")
+                if "usize" not in ty:
+                    continue
+                n += 1
+                rep.fn(b["def"])
+                grow = sorted({x["method"] for x, _ in F.walk(f["e"]) if x.get("k") == "MethodCall" and x["method"] in GROW} | {x["op"] for x, _ in F.walk(f["e"]) if x.get("k") in ("Binary", "AssignOp") and x.get("op") in GROW_OPS})
+                # a let-bound width: look through immutable lets of the function
+                for x, _ in F.walk(f["e"]):
+                    if x.get("k") == "Path" and x.get("res") == "local":
+                        for m, _ in F.walk(b["hir"]["value"]):
+                            if m.get("s") == "Let" and "init" in m and m["pat"].get("p") == "Bind" and m["pat"].get("local") == x["local"]:
+                                grow += sorted({y["method"] for y, _ in F.walk(m["init"]) if y.get("k") == "MethodCall" and y["method"] in GROW} | {y["op"] for y, _ in F.walk(m["init"]) if y.get("k") == "Binary" and y.get("op") in GROW_OPS})
+                k = sum(1 for y in rep.instances.get(rule, []) if y.startswith(f"reported-width:{F.strip_generics(b['def'])}:{node.get('variant')}#")) + 1
+                rep.oblige(not grow, rule, f"reported-width:{F.strip_generics(b['def'])}:{node.get('variant')}#{k}", F.loc(node["span"]), f"`{b['def']}` reports the `{f['field']}` of `{node.get('variant')}` through {grow}: the reported width can exceed the inferred one, so an entry near the top of a slot ends beyond it", sample={"rule": rule, "fn": b["def"], "type": node.get("variant"), "field": f["field"]} if n <= 3 else None)
+    rep.floor(rule, n, 6, "widths handed to ABI types by the type checker")
+
+
 def check_r125(fx, rep):
     """Offsets accumulate when a nested packed type is flattened into its parent (`nested offset + span offset`). The sum of
     two in-word offsets is not an in-word offset: the flattening must keep the nested elements inside the parent span (or the
@@ -736,6 +770,7 @@ def check(fx, rep, tier):
     check_r122(fx, rep)
     check_r123(fx, rep)
     check_r124(fx, rep)
+    check_reported_width(fx, rep)
     check_r125(fx, rep)
     return rep.finish(
         "Who-may-write audit of the layout's entry vector plus the push-then-sort-by-(index,offset) path rule in the insertion method and the "
